@@ -890,3 +890,67 @@ func instrBefore(a, b ssa.Instruction) bool {
 	}
 	return false
 }
+
+// ruleAllFilesProcessed (C09.3): the files named on the command line reach the processor unfiltered, and the processor
+// handles every one of them in order until the first error.
+func ruleAllFilesProcessed(c *Ctx, rule string) {
+	L := c.L
+	run := L.fn(cfgPkg, "(*GenerateCmd).Run")
+	pfs := resolveRole(c, genPkg, "(*Processor).ProcessFiles")
+	one := resolveRole(c, genPkg, "(*Processor).processFile")
+	if run == nil || pfs == nil || one == nil {
+		c.undecided(rule, "ProcessFiles", "GenerateCmd.Run / ProcessFiles / processFile not found")
+		return
+	}
+	c.seen(fnName(pfs))
+	for _, cs := range callsIn(run) {
+		if cs.common.StaticCallee() != pfs {
+			continue
+		}
+		s := newSym(L, map[string]bool{})
+		s.maxD = 0
+		t := strings.Join(s.eval(cs.arg(1)), "|")
+		c.check(t == "field:internal/config.GenerateCmd.Files(param:c)" || regexp.MustCompile(`^field:internal/config\.GenerateCmd\.Files\(param:\w+\)$`).MatchString(t), rule, "GenerateCmd.Run:files-unfiltered", L.pos(cs.instr.Pos()),
+			"the processor receives exactly the file arguments of the command line", t)
+	}
+	ruleNoEarlyExit(c, rule, "(*Processor).ProcessFiles")
+	n := 0
+	for _, cs := range callsIn(pfs) {
+		if cs.common.StaticCallee() != one {
+			continue
+		}
+		n++
+		// the argument is the loop element of the files parameter
+		okArg := false
+		if ld, ok := cs.arg(1).(*ssa.UnOp); ok && ld.Op == token.MUL {
+			if ia, ok := ld.X.(*ssa.IndexAddr); ok {
+				if p, ok := resolve(ia.X).(*ssa.Parameter); ok && p.Parent() == pfs {
+					okArg = true
+				}
+			}
+		}
+		if p, ok := resolve(cs.arg(1)).(*ssa.Parameter); ok && p.Parent() != pfs {
+			okArg = true // range-over-func / closure element
+		}
+		c.check(okArg, rule, "ProcessFiles:processes-the-element", L.pos(cs.instr.Pos()), "each iteration processes the file it iterates over", describe(cs.arg(1)))
+		// every iteration reaches the call: its block dominates every latch of the loop
+		okDom := false
+		for _, h := range pfs.Blocks {
+			if !strings.HasPrefix(h.Comment, "rangeindex.loop") && !strings.HasPrefix(h.Comment, "rangeiter.loop") && !strings.HasPrefix(h.Comment, "for.loop") {
+				continue
+			}
+			okDom = true
+			for _, p := range h.Preds {
+				if h.Dominates(p) && p != h && !(cs.instr.Block() == p || cs.instr.Block().Dominates(p)) {
+					okDom = false
+				}
+			}
+		}
+		c.check(okDom, rule, "ProcessFiles:no-file-skipped", L.pos(cs.instr.Pos()), "no iteration continues without processing its file (the call dominates every back edge of the loop)", fmt.Sprintf("call in block %d", cs.instr.Block().Index))
+		if cs.value() != nil {
+			ok, why := errorBranchReturnsNonNil(cs.value())
+			c.check(ok, rule, "ProcessFiles:first-error-returned", L.pos(cs.instr.Pos()), "a failing file makes ProcessFiles fail", why)
+		}
+	}
+	c.floor(rule, "processFile call sites in ProcessFiles", n, 1)
+}
